@@ -267,6 +267,42 @@ fn apply_fault(b: &Built, encl: usize, fault: &Value) -> Vec<u8> {
     v
 }
 
+/// Truncation lengths in a window around every structural boundary of the archive (production constants):
+/// header end, every chunk edge and tag start, every compressed block edge, every block of the typed stream,
+/// end marker, footers, end of file.
+fn window_cuts(reset: &Value, b: &Built, w: usize) -> Vec<usize> {
+    let h = b.header_len;
+    let total = b.bytes.len();
+    let ch = reset["CH"].as_u64().unwrap() as usize;
+    let enc = reset["enc"].as_bool().unwrap();
+    let comp = reset["comp"].as_bool().unwrap();
+    let encl = reset["encl"].as_u64().unwrap() as usize;
+    // offset in the stream below the encryption layer -> offset in the archive
+    let below = |p: usize| if enc { h + (p / ch) * (ch + 16) + p % ch } else { h + p };
+    let mut marks = vec![0, h, total];
+    if enc {
+        let n = if encl == 0 { 1 } else { encl.div_ceil(ch) };
+        for k in 1..=n { marks.push(h + k * (ch + 16)); marks.push((h + k * (ch + 16)).saturating_sub(16)); }
+        marks.push(total.saturating_sub(16));
+    }
+    if comp {
+        let mut c = 0usize;
+        for z in reset["csizes"].as_array().unwrap() { c += z.as_u64().unwrap() as usize; marks.push(below(c)); }
+        marks.push(below(encl.saturating_sub(4)));
+    } else {
+        for blk in reset["blocks"].as_array().unwrap() {
+            let off = blk["off"].as_u64().unwrap() as usize;
+            marks.push(below(off));
+            marks.push(below(off + 17));
+        }
+        marks.push(below(reset["L"].as_u64().unwrap() as usize - 4));
+    }
+    let mut cuts: Vec<usize> = marks.iter().flat_map(|m| (m.saturating_sub(w)..=(m + w).min(total))).collect();
+    cuts.sort_unstable();
+    cuts.dedup();
+    cuts
+}
+
 pub fn main(args: &[String]) {
     let scens = read_jsonl(&args[0]);
     quiet_panics();
@@ -340,6 +376,9 @@ pub fn main(args: &[String]) {
                 }
                 if let Some(list) = scen.get("cuts").and_then(Value::as_array) {
                     cuts = list.iter().map(|x| x.as_u64().unwrap() as usize).collect();
+                }
+                if scen.get("cuts").and_then(Value::as_str) == Some("windows") {
+                    cuts = window_cuts(&reset, &b, scen.get("window").and_then(Value::as_u64).unwrap_or(12) as usize);
                 }
                 if flush_all {
                     // C14: the cuts are exactly what had reached the destination when each flush() returned
